@@ -443,28 +443,52 @@ def run(rep, tier):
     fo = Fold(fc).run()
     unit_factor = {"ang": Fr(1), "nm": CONV_REF["ang2nm"], "bohr": CONV_REF["ang2bohr"]}
     csub = {S("conv::" + k): sympy_rat(v[0]) for k, v in conv.items()}
-    seen_units = set()
-    for val, guards, node in fo.returns:
-        us = [u for g in guards for u in unit_factor if '"%s"' % u in fo.cond_str(g[0]) and g == guards[-1]]
-        if len(us) != 1:
+    import sympy as sp
+    from vsa.cases import executes as _ex4, decide as _dc4, resolve_ite as _rs4
+    c4 = getattr(fo, "conds", {})
+    upar = fc.j["params"][1]["name"]
+
+    def unit_orc(lf):
+        if isinstance(lf, tuple) and len(lf) == 3 and lf[0] in ("==", "!="):
+            a_, b_ = str(lf[1]), str(lf[2])
+            for x_, y_ in ((a_, b_), (b_, a_)):
+                if x_ == upar and re.match(r'^"\w+"$', y_):
+                    return ("UNIT=" + y_.strip('"'), lf[0] == "==")
+        if str(getattr(lf, "func", "")) == "compare" and len(lf.args) == 2 and str(lf.args[0]) == upar and re.match(r'^"\w+"$', str(lf.args[1])):
+            return ("UNIT=" + str(lf.args[1]).strip('"'), False)         # compare() is non-zero (true) when the strings differ
+        if str(getattr(lf, "func", "")).startswith("filled_") or str(lf).startswith("filled_"):
+            return ("FILLED", True)
+        return None
+    rets4 = [e for e in fo.events if e["kind"] == "return"]
+    thr4 = [e for e in fo.events if e["kind"] == "throw"]
+    for u in list(unit_factor) + ["other"]:
+        A = {"UNIT=" + k_: k_ == u for k_ in unit_factor}
+        A["FILLED"] = True
+        live = [e for e in rets4 if _ex4(e, None, A, unit_orc, c4)]
+        und = [e for e in rets4 + thr4 if _ex4(e, None, A, unit_orc, c4) is None]
+        if und:
+            rep.broken("R20.4", "getCovRad: cannot decide which exit is taken for unit '%s'" % u)
             continue
-        u = us[0]
-        seen_units.add(u)
-        import sympy as sp
-        tab = [a for a in val.free_symbols if a not in csub]
-        ok = False
-        fac = None
+        if u == "other":
+            rep.check(not live and any(_ex4(e, None, A, unit_orc, c4) for e in thr4), "R20.4", "covrad|unknown-unit", "an unknown unit is an error",
+                      "Elements::getCovRad returns a value for a unit that is none of ang/nm/bohr", fc.loc())
+            continue
+        if len(live) != 1:
+            rep.broken("R20.4", "getCovRad: branch for unit '%s' not recognised" % u)
+            continue
+        val = live[0]["value"]
+        val = _rs4(val, lambda cs: _dc4(c4[cs], None, A, unit_orc, c4) if cs in c4 else None) if hasattr(val, "args") else val
+        tab = [a_ for a_ in sp.preorder_traversal(val) if "CovRad_" in str(a_) and not any("CovRad_" in str(x) for x in getattr(a_, "args", ()))] if hasattr(val, "args") else []
+        tab = list(dict.fromkeys(tab))
+        ok, fac = False, None
         if len(tab) == 1:
             q = sp.cancel(val / tab[0])
-            if not (q.free_symbols - set(csub)):
+            if not q.has(tab[0]) and not (q.free_symbols - set(csub)):
                 fac = float(q.subs(csub))
-                ok = sig4(fac, unit_factor[u]) and "CovRad_" in str(tab[0])
+                ok = sig4(fac, unit_factor[u])
         rep.check(ok, "R20.4", "covrad|" + u, "getCovRad(.., \"%s\") = table x %s" % (u, fac),
                   "Elements::getCovRad returns the tabulated Angstrom radius times %s for unit '%s'; the Angstrom->%s factor is %.8g "
-                  "(radii in different units are inconsistent)" % (fac, u, u, float(unit_factor[u])), fc.loc(node), sample=True)
-    for u in unit_factor:
-        if u not in seen_units:
-            rep.broken("R20.4", "getCovRad: branch for unit '%s' not recognised" % u)
+                  "(radii in different units are inconsistent)" % (fac, u, u, float(unit_factor[u])), fc.loc(live[0]["node"]), sample=True)
     # ---------------------------------------------------------------- R20.5 file units applied exactly once
     rep.rule("R20.5", "LAMMPS dump reader (real units -> VOTCA units): x/y/z and xu/yu/zu and velocities are scaled by conv::ang2nm exactly once, "
                       "scaled coordinates xs/ys/zs by the matching diagonal box element (which ReadBox already converted with ang2nm) and by "
